@@ -672,6 +672,29 @@ impl Scenario for EarlyStop {
                 exit_code = extras.exit_code;
                 label = format!("stop-event | {l}");
                 kind = StopKind::StopEvent;
+                if many_batches && rng.chance(1, 2) {
+                    // error storm under an error cap that is never reached: errors keep arriving at the
+                    // collector after the stop event - nothing they trigger may take the stop back
+                    // (a long stream, so that "kept reading to the end" exceeds the reaction bound)
+                    let mut big = cfg.clone();
+                    big.hbfs = (400, 800);
+                    st = gen_conforming(&big, &mut rng);
+                    let every = rng.range(2, 6) as usize;
+                    for (k, &(l, p)) in st.order.clone().iter().enumerate() {
+                        if k % every == 1 {
+                            st.links[l].packets[p].rdh.bc = 0xdec;
+                        }
+                    }
+                    extras = CmdExtras { stats_ext: "json".into(), ..Default::default() };
+                    let m = *rng.pick(&[0usize, 1, 2, 3]);
+                    parts = s(CHECK_MODES[m]);
+                    parts.extend(s(&["-e", &rng.range(100_000, 1_000_000).to_string()]));
+                    if rng.chance(1, 2) {
+                        parts.push("-m".into());
+                    }
+                    exit_code = None;
+                    label = format!("stop-event | error storm below the cap | {}", CHECK_MODES[m].join(" "));
+                }
             }
             1 => {
                 // stdout goes away: views, filtered data to stdout, stats to stdout, report
